@@ -11,7 +11,7 @@ import re
 from fractions import Fraction as F
 
 import c08_gen as G
-from c08 import (FX, T, T2, close, distribution, enc_case, h2f, make_case, model_request, oracle_value)
+from c08 import (FX, T, T2, close, distribution, enc_case, h2f, make_case, model_request, observe, oracle_value)
 from common import REPO
 
 KINDS = ("constant", "exponential", "skyride", "skygrid", "linear")
@@ -123,16 +123,17 @@ def routes(R, rng, kind, n):
         ck.case(key=("route", kind, name, n, tuple(samp), tuple(coal), tuple(case["thetas"])), bucket=f"route/{kind}/{name}")
         try:
             v = _scalar(m())
-            th = FX(m.theta.tensor)
-            gr = FX(m.grid.tensor) if "grid" in case else None
-            gw = FX(m.growth.tensor) if kind == "exponential" else None
         except Exception as e:
             R.violation(f"{ctor.__name__}:route:{name}:raises", f"{ctor.__name__} built through {name}: evaluation raises {type(e).__name__}: {str(e)[:120]}",
                         case, {"route": name}, size=n)
             continue
-        # observably the object the options name
-        named_ok = th == [F(float(x)) for x in case["thetas"]] and (gr is None or gr == [F(float(x)) for x in case["grid"]]) and (
-            gw is None or gw == [F(float(case["growth"]))])
+        # observably the object the options name: decided by its VALUE below (Kingman density of the described model);
+        # the parameters it holds are compared too when the public attributes are there
+        have, held = observe(ck, "model.theta/grid/growth", lambda: (FX(m.theta.tensor), FX(m.grid.tensor) if "grid" in case else None,
+                                                                    FX(m.growth.tensor) if kind == "exponential" else None))
+        th, gr, gw = held if have else (None, None, None)
+        named_ok = not have or (th == [F(float(x)) for x in case["thetas"]] and (gr is None or gr == [F(float(x)) for x in case["grid"]]) and (
+            gw is None or gw == [F(float(case["growth"]))]))
         if not named_ok:
             R.violation(f"{ctor.__name__}:route:{name}:options", f"{ctor.__name__} built through {name} does not hold the values it was given "
                         f"(theta {[float(x) for x in th]}, grid {None if gr is None else [float(x) for x in gr]}, growth {gw})", case, {"route": name}, size=n)
@@ -325,7 +326,8 @@ def repeat_and_copies(R, rng, kind, n):
         ma, pa = build(a)
         va1 = _scalar(ma())
         va2 = _scalar(ma())
-        da = _scalar(ma.distribution().log_prob(ma.tree_model.node_heights))
+        have_d, dist_a = observe(ck, "model.distribution()/tree_model", lambda: (ma.distribution(), ma.tree_model.node_heights))
+        da = _scalar(dist_a[0].log_prob(dist_a[1])) if have_d else None
         mb, pb = build(b)
         vb = _scalar(mb())
         va3 = _scalar(ma())
@@ -335,7 +337,9 @@ def repeat_and_copies(R, rng, kind, n):
             for i in range(1, len(new_theta)):
                 while new_theta[i] == new_theta[i - 1]:
                     new_theta[i] = G.pow2(rng)
-        mc.theta.tensor = T(new_theta)
+        have_c, th_c = observe(ck, "deepcopy.theta", lambda: mc.theta)
+        if have_c:
+            th_c.tensor = T(new_theta)
         vc = _scalar(mc())
         va4 = _scalar(ma())
     except Exception as e:
@@ -348,6 +352,10 @@ def repeat_and_copies(R, rng, kind, n):
     checks = [("first evaluation", va1, oa, sa), ("same call again", va2, oa, sa), ("distribution().log_prob", da, oa, sa),
               ("second object of the same shapes built later", vb, ob, sb), ("first object after the second was used", va3, oa, sa),
               ("deepcopy with a new theta", vc, oc, sc), ("original after its deepcopy was updated", va4, oa, sa)]
+    if not have_d:
+        checks = [c for c in checks if c[0] != "distribution().log_prob"]
+    if not have_c:
+        checks = [c for c in checks if c[0] != "deepcopy with a new theta"]
     for what, v, o, sc_ in checks:
         if v is None or not close(v, o, 1e-10, sc_):
             R.violation(f"{ctor.__name__}:history:{what.replace(' ', '-')}", f"{ctor.__name__}: {what}: {v!r}, Kingman density {o!r}", a,
